@@ -3,7 +3,7 @@ import os
 from lib.common import *
 
 SURFACES = ("smtpd", "qmtpd", "qmqpd", "pop3d", "popup", "maildirnames", "inject", "qreceipt", "queue", "dotqmail", "localmsg",
-            "lspawn", "rspawn", "report", "newu", "pw2u")
+            "lspawn", "rspawn", "report", "newu", "pw2u", "ctl-smtpd", "ctl-qmtpd", "ctl-inject")
 EXCL = ("timeoutread.o", "timeoutwrite.o")
 
 
@@ -65,10 +65,10 @@ def main(tier, replay=None):
                 "through token822_parse/addrlist/unparse with exact-size buffers; a cdb image at every truncation and with every byte "
                 ":= 0x00/0xFF; every control file over 7 characters up to length %d; qmail-remote smtp() against 6 phases x 9 hostile reply "
                 "forms x 3 codes x 36 lengths (0..5, ~1024, each of 4990..5010, ~8192, 70000, 10^6) x 3 read sizes x {disconnect, "
-                "timeout}, output chained into qmail-rspawn report() on an exact-size heap copy.  VK: for each of 16 input surfaces "
+                "timeout}, output chained into qmail-rspawn report() on an exact-size heap copy.  VK: for each of 19 input surfaces "
                 "(SMTP/QMTP/QMQP/POP3 streams, popup credentials, maildir file names, qmail-inject and qreceipt headers, qmail-queue "
                 "envelopes, .qmail files, messages to qmail-local, spawner command streams, qmail-remote/qmail-local reports to the "
-                "spawner, users/assign, passwd lines) every single-point mutation of grammar-derived base inputs (every truncation, "
+                "spawner, users/assign, passwd lines, the control files read by qmail-smtpd, qmail-qmtpd and qmail-inject) every single-point mutation of grammar-derived base inputs (every truncation, "
                 "every byte := each hostile character, every byte deleted, every number := 16 extreme values, every byte repeated 1000x; "
                 "thorough: + every insertion, 70000x) plus hand-written extremes around each documented limit" % (toklen, ctllen))
     res.assumptions = ["virtual kernel (appendix A)", "memory errors are those AddressSanitizer/UBSan detect at byte granularity (exact-size buffers and poisoned slack in the SEQ harnesses)",
